@@ -70,13 +70,15 @@ def run(ctx):
               'recursion through %s' % (cyc,))
 
     # R-C16-3 loops
+    from . import weights
+    samplers = weights.rejection_samplers(ctx)
     nloops = 0
     for b in bodies:
         for h, lp in sorted(ctx.loops(b).items()):
             nloops += 1
             key = 'R-C16-3/%s/loop@%s' % (b.path, canon(lp.iter_term) if lp.iter_term is not None else 'nodriver')
-            if b.path in LOOP_EXCEPTIONS:
-                rep.ok('R-C16-3', key, 'tabled: ' + LOOP_EXCEPTIONS[b.path], ctx.where(b, h), nontrivial=False)
+            if b.path in samplers and samplers[b.path].get('exit_nonzero'):
+                rep.ok('R-C16-3', key, 'tabled: rejection sampling (loop exits as soon as the draw is non-zero): terminates with probability 1, one expected iteration', ctx.where(b, h), nontrivial=False)
                 continue
             if lp.driver_bb is None:
                 rep.violation('R-C16-3', key, 'loop without an iterator driver (while/loop) in code reachable from untrusted input', ctx.where(b, h))
